@@ -8,6 +8,7 @@ package symx
 import (
 	"fmt"
 	"math/big"
+	"sort"
 	"strings"
 )
 
@@ -310,31 +311,12 @@ func (f *Factory) Bin(op Op, x, y *Term) *Term {
 	}
 	switch op {
 	case OpAdd:
-		// normal form: base + const, constants on the right
-		if x.op == OpConst {
-			x, y = y, x
+		if r := f.disjointMerge(x, y); r != nil {
+			return r
 		}
-		if y.op == OpConst {
-			if y.c.Sign() == 0 {
-				return x
-			}
-			if b, c := f.linear(x); b != nil && b != x {
-				return f.Bin(OpAdd, b, f.Const(new(big.Int).Add(c, y.c), w))
-			}
-		}
+		return f.sum(w, x, y)
 	case OpSub:
-		if y.op == OpConst {
-			return f.Bin(OpAdd, x, f.Const(new(big.Int).Neg(y.c), w))
-		}
-		if x == y {
-			return f.ConstU(0, w)
-		}
-		// (b + c1) - (b + c2) = c1 - c2
-		bx, cx := f.linear(x)
-		by, cy := f.linear(y)
-		if bx != nil && bx == by {
-			return f.Const(new(big.Int).Sub(cx, cy), w)
-		}
+		return f.sum(w, x, f.Neg(y))
 	case OpMul:
 		if x.op == OpConst {
 			x, y = y, x
@@ -388,8 +370,32 @@ func (f *Factory) Bin(op Op, x, y *Term) *Term {
 			return x
 		}
 	case OpShl, OpLShr, OpAShr:
-		if y.op == OpConst && y.c.Sign() == 0 {
-			return x
+		if y.op == OpConst {
+			if y.c.Sign() == 0 {
+				return x
+			}
+			// shifts by a constant become concat/extract so that byte
+			// (de)serialisation code folds back to the original word
+			if y.c.Cmp(big.NewInt(int64(w))) >= 0 {
+				if op == OpAShr {
+					return f.SExt(f.Extract(x, w-1, w-1), w)
+				}
+				return f.ConstU(0, w)
+			}
+			k := int(y.c.Int64())
+			switch op {
+			case OpShl:
+				return f.Concat(f.Extract(x, w-1-k, 0), f.ConstU(0, k))
+			case OpLShr:
+				return f.Concat(f.ConstU(0, k), f.Extract(x, w-1, k))
+			case OpAShr:
+				return f.SExt(f.Extract(x, w-1, k), w)
+			}
+		}
+	}
+	if op == OpOr || op == OpXor || op == OpAdd {
+		if r := f.disjointMerge(x, y); r != nil {
+			return r
 		}
 	}
 	return f.mk2(op, w, x, y)
@@ -402,7 +408,77 @@ func (f *Factory) Neg(x *Term) *Term {
 	if x.op == OpNeg {
 		return x.a[0]
 	}
+	if x.op == OpAdd {
+		// -(a+b) = (-a)+(-b): keeps sums flat so that opposite addends cancel
+		return f.sum(x.w, f.Neg(x.a[0]), f.Neg(x.a[1]))
+	}
 	return f.mk1(OpNeg, x.w, x)
+}
+
+// collect flattens a sum into non-constant addends and a constant.
+func (f *Factory) collect(t *Term, out *[]*Term, c *big.Int) {
+	switch t.op {
+	case OpAdd:
+		f.collect(t.a[0], out, c)
+		f.collect(t.a[1], out, c)
+	case OpConst:
+		c.Add(c, t.c)
+	default:
+		*out = append(*out, t)
+	}
+}
+
+// sum builds x+y in canonical form: addends sorted by structural hash,
+// opposite addends cancelled, the constant last. Syntactically different
+// but arithmetically equal sums (a+b+c, a+c+b) become the same term.
+func (f *Factory) sum(w int, x, y *Term) *Term {
+	var ts []*Term
+	c := new(big.Int)
+	f.collect(x, &ts, c)
+	f.collect(y, &ts, c)
+	// cancel t and -t
+	for i := 0; i < len(ts); i++ {
+		if ts[i] == nil {
+			continue
+		}
+		var opp *Term
+		if ts[i].op == OpNeg {
+			opp = ts[i].a[0]
+		}
+		for j := 0; j < len(ts); j++ {
+			if j == i || ts[j] == nil {
+				continue
+			}
+			if (opp != nil && ts[j] == opp) || (ts[j].op == OpNeg && ts[j].a[0] == ts[i]) {
+				ts[i], ts[j] = nil, nil
+				break
+			}
+		}
+	}
+	live := ts[:0]
+	for _, t := range ts {
+		if t != nil {
+			live = append(live, t)
+		}
+	}
+	sort.SliceStable(live, func(i, j int) bool {
+		if live[i].h != live[j].h {
+			return live[i].h < live[j].h
+		}
+		return live[i].id < live[j].id
+	})
+	cn := norm(c, w)
+	if len(live) == 0 {
+		return f.Const(cn, w)
+	}
+	r := live[0]
+	for _, t := range live[1:] {
+		r = f.mk2(OpAdd, w, r, t)
+	}
+	if cn.Sign() != 0 {
+		r = f.mk2(OpAdd, w, r, f.Const(cn, w))
+	}
+	return r
 }
 
 func (f *Factory) BvNot(x *Term) *Term {
@@ -817,4 +893,87 @@ func (t *Term) Vars(seen map[*Term]bool, out *[]*Term) {
 	for i := 0; i < t.n; i++ {
 		t.a[i].Vars(seen, out)
 	}
+}
+
+type seg struct {
+	t *Term
+}
+
+// segments flattens concat / zero_extend structure into pieces, high first.
+func (f *Factory) segments(t *Term, out *[]*Term) {
+	switch t.op {
+	case OpConcat:
+		f.segments(t.a[0], out)
+		f.segments(t.a[1], out)
+	case OpZExt:
+		*out = append(*out, f.ConstU(0, t.hi))
+		f.segments(t.a[0], out)
+	default:
+		*out = append(*out, t)
+	}
+}
+
+func isZeroConst(t *Term) bool { return t.op == OpConst && t.c.Sign() == 0 }
+
+// disjointMerge returns x|y (== x^y == x+y) when, after aligning their
+// concat structure, every aligned piece is zero on at least one side.
+// It returns nil when that is not the case.
+func (f *Factory) disjointMerge(x, y *Term) *Term {
+	if x.op != OpConcat && x.op != OpZExt && y.op != OpConcat && y.op != OpZExt {
+		return nil
+	}
+	var xs, ys []*Term
+	f.segments(x, &xs)
+	f.segments(y, &ys)
+	if len(xs) == 1 && len(ys) == 1 {
+		return nil
+	}
+	var out []*Term
+	i, j := 0, 0
+	var cx, cy *Term
+	for {
+		if cx == nil {
+			if i >= len(xs) {
+				break
+			}
+			cx = xs[i]
+			i++
+		}
+		if cy == nil {
+			if j >= len(ys) {
+				return nil
+			}
+			cy = ys[j]
+			j++
+		}
+		n := cx.w
+		if cy.w < n {
+			n = cy.w
+		}
+		px, py := cx, cy
+		if cx.w > n {
+			px = f.Extract(cx, cx.w-1, cx.w-n)
+			cx = f.Extract(cx, cx.w-n-1, 0)
+		} else {
+			cx = nil
+		}
+		if cy.w > n {
+			py = f.Extract(cy, cy.w-1, cy.w-n)
+			cy = f.Extract(cy, cy.w-n-1, 0)
+		} else {
+			cy = nil
+		}
+		switch {
+		case isZeroConst(px):
+			out = append(out, py)
+		case isZeroConst(py):
+			out = append(out, px)
+		default:
+			return nil
+		}
+	}
+	if cy != nil || j < len(ys) {
+		return nil
+	}
+	return f.ConcatAll(out)
 }
